@@ -418,5 +418,39 @@ int main(int argc, char** argv) {
     q.decode = dec_walk;
     q.share = thorough ? 0.01 : 0.02;
     vf::run(q);
+    // complete enumeration of the modulo configurations: all 512 mod values x both cmd modes x 8 registers x both
+    // directions, one full lap + 3 steps each (thorough: everything; quick: the mod values with mod % 8 == seed % 8)
+    if (vf::ctx().replay.empty()) {
+        vf::Ctx& c = vf::ctx();
+        uint64_t walks = 0;
+        for (unsigned mod = 0; mod < 512; ++mod) {
+            if (!thorough && (mod % 8) != (c.seed % 8))
+                continue;
+            for (unsigned cmd = 0; cmd < 2; ++cmd)
+                for (unsigned unit = 0; unit < 8; ++unit)
+                    for (unsigned dir = 0; dir < 2; ++dir) {
+                        unsigned idx = ((mod * 2 + cmd) * 8 + unit) * 2 + dir;
+                        if ((int)(idx % (unsigned)c.workers) != c.worker)
+                            continue;
+                        Walk w;
+                        w.unit = unit;
+                        w.mod = mod;
+                        w.cmd = cmd;
+                        w.pattern = dir;
+                        w.start_off = (unsigned)vf::mix64(idx + c.seed) % (mod + 1);
+                        w.base_bits = (uint16_t)vf::mix64(idx * 31 + c.seed);
+                        w.seed = idx;
+                        w.steps = 2 * (mod + 1) + 3;
+                        c.current_prop = "modulo_walk";
+                        c.current = [&] { return enc_walk(w); };
+                        vf::enum_result("modulo_walk", check_walk(w), [&] { return enc_walk(w); }, [&] { return check_walk(w); });
+                        ++walks;
+                    }
+        }
+        c.current = nullptr;
+        vf::klass("enumerated modulo walks (mod x cmd x unit x direction)", walks);
+        if (thorough)
+            c.exhaustive["all 512 mod values x cmd x unit x direction (this worker's share)"] = true;
+    }
     return vf::finish();
 }
